@@ -441,6 +441,16 @@ namespace options
                 }
             }
         });
+
+        for (auto& toggle : get_all_toggles())
+        {
+            // --no-<name> has to refer to this toggle only
+            if (has_option_with_name("no-" + toggle.first))
+            {
+                raise<parser_error>("the option 'no-", toggle.first,
+                                    "' is ambiguous with the reverse of toggle '", toggle.first, "'");
+            }
+        }
     }
 
 } // namespace options
